@@ -331,6 +331,13 @@ func ClientRun(osenv *rsyncos.Env, opts *rsyncopts.Options, conn io.ReadWriter, 
 		if err != nil {
 			return nil, err
 		}
+		if opts.DeleteMode() {
+			// A receiving server that was told to --delete reads our filter
+			// rules first (rsync/main.c:client_run, send_filter_list).
+			if err := sendFilterList(c, opts.FilterRules()); err != nil {
+				return nil, err
+			}
+		}
 		stats, err := st.Do(crd, cwr, FileSystemRoot, paths, exclusionList)
 		if err != nil {
 			return nil, err
@@ -391,12 +398,7 @@ func ClientRun(osenv *rsyncos.Env, opts *rsyncopts.Options, conn io.ReadWriter, 
 		}
 	}
 
-	for _, rule := range opts.FilterRules() {
-		c.WriteInt32(int32(len(rule)))
-		c.WriteString(rule)
-	}
-	const exclusionListEnd = 0
-	if err := c.WriteInt32(exclusionListEnd); err != nil {
+	if err := sendFilterList(c, opts.FilterRules()); err != nil {
 		return nil, err
 	}
 
@@ -417,6 +419,20 @@ func ClientRun(osenv *rsyncos.Env, opts *rsyncopts.Options, conn io.ReadWriter, 
 	}
 
 	return rt.Do(c, fileList, false)
+}
+
+// rsync/exclude.c:send_filter_list
+func sendFilterList(c *rsyncwire.Conn, rules []string) error {
+	for _, rule := range rules {
+		if err := c.WriteInt32(int32(len(rule))); err != nil {
+			return err
+		}
+		if err := c.WriteString(rule); err != nil {
+			return err
+		}
+	}
+	const exclusionListEnd = 0
+	return c.WriteInt32(exclusionListEnd)
 }
 
 func clientMain(ctx context.Context, osenv *rsyncos.Env, opts *rsyncopts.Options, remaining []string) (*rsyncstats.TransferStats, error) {
